@@ -42,7 +42,7 @@ def near_special(r):
     k = float(r.integers(2, 10)); sgn = float(r.choice([-1.0, 1.0]))
     return [0.0, 1.0, -1.0, 2.0, 0.5,
             sgn * k * 1e-9, sgn * k * 1e-7, sgn * k * 1e-12, 1.0 + sgn * k * 1e-6, -1.0 + sgn * k * 1e-6, 1.0 + sgn * k * 1e-8, -1.0 - sgn * k * 1e-9,
-            1.0 + sgn * k * 1e-12][int(r.integers(0, 13))]
+            1.0 + sgn * k * 1e-12, sgn * k * 1e-17, sgn * k * 1e-19, sgn * k * 1e-30][int(r.integers(0, 16))]
 
 def scalar_leaf(ctx):
     r = ctx.rng; z = r.random()
